@@ -309,7 +309,12 @@ impl Ctx {
         });
         let bytes = serde_json::to_vec_pretty(&body).unwrap();
         let name = format!("new-{:016x}.json", h64(&serde_json::to_vec(&body["case"]).unwrap()));
-        let dir = verif_root().join("replays").join(&self.property);
+        // VERIF_SCRATCH_OUT redirects new replay files and evidence (used when a check is run
+        // against a deliberately broken tree, so that /verif's committed state is not touched)
+        let dir = match std::env::var_os("VERIF_SCRATCH_OUT") {
+            Some(d) => PathBuf::from(d).join("replays").join(&self.property),
+            None => verif_root().join("replays").join(&self.property),
+        };
         let _ = std::fs::create_dir_all(&dir);
         let path = dir.join(name);
         let _ = std::fs::write(&path, bytes);
@@ -383,7 +388,10 @@ impl Ctx {
             "wall_s": (self.wall() * 1000.0).round() / 1000.0,
             "violations": viol.len(),
         });
-        let dir = verif_root().join("evidence");
+        let dir = match std::env::var_os("VERIF_SCRATCH_OUT") {
+            Some(d) => PathBuf::from(d).join("evidence"),
+            None => verif_root().join("evidence"),
+        };
         let _ = std::fs::create_dir_all(&dir);
         let path = dir.join(format!("{}.json", self.property));
         if let Err(e) = std::fs::write(&path, serde_json::to_vec_pretty(&ev).unwrap()) {
